@@ -6,41 +6,51 @@ from . import core
 from .c20 import render
 
 
-def run(rep, tier, seed):
-    core.build("rel")
-    d = core.rundir("C16")
-    hb = core.hbin("h_c16")
-    gen = os.path.join(d, "gen.ndjson")
+def one_shape(rep, tier, d, hb, shape):
+    gen = os.path.join(d, "gen%d.ndjson" % shape)
     open(gen, "w").close()
     maxlen = 3 if tier == "quick" else 4
-    render(os.path.join(core.SPEC, "MC_LibGraph.cfg.in"), os.path.join(d, "MC_LibGraph.cfg"),
-           MAXLEN=maxlen, EXPORT="ACTION_CONSTRAINT Export")
-    r = core.tlc("MC_LibGraph", "MC_LibGraph.cfg", d, workers=1, env=dict(GEN_OUT=gen), heap="6g")
-    rep.add_model("libgraph-model", r)
+    cfg = "MC_LibGraph_s%d.cfg" % shape
+    render(os.path.join(core.SPEC, "MC_LibGraph.cfg.in"), os.path.join(d, cfg),
+           MAXLEN=maxlen, SHAPE=shape, EXPORT="ACTION_CONSTRAINT Export")
+    r = core.tlc("MC_LibGraph", cfg, d, workers=1, env=dict(GEN_OUT=gen), heap="6g",
+                 tag="libgraph-s%d" % shape)
+    rep.add_model("libgraph-model(shape %d)" % shape, r)
     if tier == "thorough":
         # deeper, invariants only (no export)
-        render(os.path.join(core.SPEC, "MC_LibGraph.cfg.in"), os.path.join(d, "MC_LibGraph5.cfg"),
-               MAXLEN=6, EXPORT="")
-        r5 = core.tlc("MC_LibGraph", "MC_LibGraph5.cfg", d, workers=16, heap="12g",
-                      tag="libgraph-model-deep")
-        rep.add_model("libgraph-model-deep", r5)
-    obs = os.path.join(d, "obs.ndjson")
+        cfg5 = "MC_LibGraph5_s%d.cfg" % shape
+        render(os.path.join(core.SPEC, "MC_LibGraph.cfg.in"), os.path.join(d, cfg5),
+               MAXLEN=6, SHAPE=shape, EXPORT="")
+        r5 = core.tlc("MC_LibGraph", cfg5, d, workers=16, heap="12g",
+                      tag="libgraph-model-deep-s%d" % shape)
+        rep.add_model("libgraph-model-deep(shape %d)" % shape, r5)
+    obs = os.path.join(d, "obs%d.ndjson" % shape)
     tmp = os.path.join(d, "tmp")
     os.makedirs(tmp, exist_ok=True)
     core.run([hb, gen, obs, tmp], timeout=3000)
-    v = core.validate("C16Trace", "C16Trace.cfg", d, obs, nparts=16)
+    tcfg = "C16Trace_s%d.cfg" % shape
+    render(os.path.join(core.SPEC, "C16Trace.cfg.in"), os.path.join(d, tcfg), SHAPE=shape)
+    v = core.validate("C16Trace", tcfg, d, obs, nparts=16)
     ngen = core.count_lines(gen)
-    rep.add_validation("libgraph-trace", v, ngen, distinct=ngen)
+    rep.add_validation("libgraph-trace(shape %d)" % shape, v, ngen, distinct=ngen)
     rep.cov["samples"].append(dict(history=core.read_ndjson(gen, 40)[-1]["h"]))
     for line, why, fn in v["rejects"]:
-        rp = os.path.join(d, "replay", "c16_%d.ndjson" % line)
+        rp = os.path.join(d, "replay", "c16_s%d_%d.ndjson" % (shape, line))
         os.makedirs(os.path.dirname(rp), exist_ok=True)
         ev = json.loads(core.extract_execution(obs, line, rp))
         sig = "C16 %s(%s,%s)" % (ev.get("e"), ev.get("a", ""), ev.get("b", ""))
         if ev.get("e") in ("Crash", "Hang"):
             h = ev["g"]["h"]
             sig = "C16 %s in %s" % (ev["e"], h[-1]["op"] if h else "init")
-        rep.violation(sig, rp, "library graph: %s rejected at log line %d" % (why, line))
+        rep.violation(sig, rp, "library graph (shape %d): %s rejected at log line %d" % (shape, why, line))
+
+
+def run(rep, tier, seed):
+    core.build("rel")
+    d = core.rundir("C16")
+    hb = core.hbin("h_c16")
+    for shape in (1, 2):
+        one_shape(rep, tier, d, hb, shape)
     rep.assumptions += ["names are unique among library members (gdstk's documented requirement)",
                         "objects replaced away are not brought back; a raw cell needed by other "
                         "raw cells of the library is not replaced (their bytes are immutable)"]
